@@ -1632,7 +1632,8 @@ func (e *Engine) compute(fi *fnInfo, st *State, in ssa.Value) AbsVal {
 		// an error value built by NewError/NewErrorLexer and handed on as `error` (return ErrorGrammar, nil, parse.NewErrorLexer(…)):
 		// still that non-nil value with its message
 		if isErrorType(x.Type()) {
-			if iv := e.eval(st, x.X); iv.emsg != "" {
+			// (a message that is not a constant here — fail(msg) — is resolved where the value is stored)
+			if iv := e.eval(st, x.X); iv.emsg != "" && iv.emsg != "?" {
 				return iv
 			}
 		}
